@@ -27,7 +27,8 @@ EXPLANATION = (
     "collection-shaped delta content (C05/C20).")
 ASSUMPTIONS = ["capture_delta/apply_delta round-trip a delta (C20)", "times are multiples of MIN_TD"]
 DECIDED = ["a sink: state written, then source scheduled once at NOW+MIN_TD", "b sink driven by the producer only", "c source emits the stored delta",
-           "d no same-cycle edge; unique source", "e delivery slot rule (shared C02.a)"]
+           "d no same-cycle edge; unique source", "e delivery slot rule (shared C02.a)",
+           'h switch_ remembers the running key (= C12.n)', 'i owners record the next wake-up of every evaluated child (= C09.d)']
 NOT_DECIDED = ["overwrite before emission for arbitrary producers", "delta content of collections"]
 
 
